@@ -185,7 +185,7 @@ MhaBias == IF Big THEN {<<"none", "none", "none">>, <<"vec", "vec", "vec">>, <<"
 MhaMasks == IF Big THEN {"none", "bhst", "b1st", "11st", "b11t", "st", "1t", "hst", "b1s1"}
             ELSE {"none", "b1st", "b11t", "st", "hst", "b1s1"} \ {"b1st"}
 \* <<B, S, T, H, Dh>>  (T is used only without projections: with them key/value come from the same input)
-MhaSz == IF Big THEN {<<2, 3, 4, 2, 4>>, <<1, 1, 1, 1, 2>>, <<1, 2, 2, 4, 2>>} ELSE {<<2, 3, 4, 2, 4>>}
+MhaSz == IF Big THEN {<<2, 3, 4, 2, 4>>, <<1, 1, 1, 1, 2>>} ELSE {<<2, 3, 4, 2, 4>>}
 MhaCfgs == {[fam |-> "mha", dt |-> dt, proj |-> pj, bq |-> bb[1], bk |-> bb[2], bv |-> bb[3], kfmt |-> kp[1], past |-> kp[2],
              mask |-> m, qs |-> sf[1], ks |-> sf[2], qks |-> sf[3], sc |-> sf[4], nanfix |-> FALSE, preq |-> pq, rot |-> "none",
              B |-> z[1], S |-> z[2], T |-> (IF pj = "none" THEN z[3] ELSE z[2]), H |-> z[4], Dh |-> z[5]] :
